@@ -124,6 +124,14 @@ FMTS = {"32": F32, "64": F64, "80": F80}
 FLOATS = (F32, F64, F80)
 
 
+def cnt(ctx, f, nq, nt):
+    """number of random cases for format f: quick nq (40% for long double: its exact oracle is the slowest), thorough nt"""
+    if ctx.quick:
+        return nq * 2 // 5 if f.w == 79 else nq
+    return nt
+
+
+
 def special_values(f):
     mach = 2.0 ** (1 - f.prec)
     vs = [0, f.sign, 1, f.sign | 1, 1 << f.mw, f.sign | (1 << f.mw), (1 << f.mw) - 1, f.maxfin, f.sign | f.maxfin,
@@ -188,7 +196,7 @@ def gen_cmp(ctx, cases, tags):
                 for a in sv:
                     for b in sv:
                         cases.append("cmp %s %s %s %s %s" % (f.name, s, f.h(e), f.h(a), f.h(b))); tags.append("cmp/special")
-        n = 2500 if quick else 60000
+        n = cnt(ctx, f, 2500, 60000)
         for i in range(n):
             s = "wsa"[i % 3]
             e = rng.choice(ev) if rng.random() < 0.8 else f.bits(rng.random() * 10 ** rng.randint(-9, 0))
@@ -210,7 +218,7 @@ def gen_cmp(ctx, cases, tags):
             if i % 5 == 0:      # the swapped pair too (symmetry is then visible in the impl outputs themselves)
                 cases.append("cmp %s %s %s %s %s" % (f.name, s, f.h(e), f.h(b), f.h(a))); tags.append(tg)
         # vectors
-        for i in range(400 if quick else 6000):
+        for i in range(cnt(ctx, f, 400, 6000)):
             s = "wsa"[i % 3]
             e = rng.choice(ev[:8])
             n1 = rng.choice([0, 1, 1, 2, 2, 3, 3, 4, 6])
@@ -237,7 +245,7 @@ def gen_round(ctx, cases, tags):
         ev = [f.bits(8 * float(mach)), f.bits(1e-6), 0, f.bits(1e-3), f.bits(0.25), f.bits(0.5), f.bits(float(mach)), f.bits(1.0), f.bits(0.01)]
         bases = [0, 1, 2, 3, 4, 7, 10, 100, 1000, 12345, 2 ** 20, 2 ** 23, 2 ** 24 - 1, 2 ** 24, 2 ** 31 - 1, 2 ** 31, 2 ** 32 - 1, 2 ** 32,
                  2 ** 52, 2 ** 53, 2 ** 62, 2 ** 63 - 1024, 2 ** 63, 2 ** 64 - 2048, 2 ** 64]
-        n = 4000 if quick else 80000
+        n = cnt(ctx, f, 4000, 80000)
         for i in range(n):
             op = "round" if i % 2 else "trunc"
             ity = rng.choice(["i32", "i32", "i64", "u32", "u64"])
@@ -330,7 +338,7 @@ def gen_int(ctx, cases, tags):
         for v in [0, 1, 2, lim, lim - 1] + ([-1, -2, -lim, -lim - 1] if sg else []) + [rng.randint(-lim if sg else 0, lim) for _ in range(20)]:
             cases.append("isign %s %d" % (t, v)); tags.append("isign")
     for f in FLOATS:
-        for i in range(300 if quick else 5000):
+        for i in range(cnt(ctx, f, 300, 5000)):
             m = rng.choice(special_values(f)) if rng.random() < 0.2 else f.bits(rng.choice([1, -1]) * rng.choice([rng.random() * 3, rng.randint(0, 12), 1 + rng.random() * 1e-3, 10.0, 0.1]))
             p = rng.randint(-70, 70) if rng.random() < 0.8 else rng.choice([0, 1, -1, 2, -2, 200, -200, 1100, -1100])
             cases.append("fpow %s %s %d" % (f.name, f.h(m), p)); tags.append("fpow")
@@ -386,7 +394,7 @@ def gen_api(ctx, cases, tags):
     (API-coverage audit, mutants/C17/API_COVERAGE.md)"""
     rng = ctx.rng("api")
     quick = ctx.quick
-    for n in range(0, 13):
+    for n in range(0, 12):
         cases.append("icfact %d" % n); tags.append("icfact")
     for n in range(-1, 13):
         for k in range(-1, 14):
@@ -413,7 +421,7 @@ def gen_api(ctx, cases, tags):
         mach = 2.0 ** (1 - f.prec)
         ev = [f.bits(8 * mach), f.bits(1e-6), 0, f.bits(1e-3), f.bits(0.5), f.bits(mach)]
         defe = {"w": f.bits(8 * mach), "s": f.bits(8 * mach), "a": f.bits(1e-6)}
-        for i in range(500 if quick else 8000):
+        for i in range(cnt(ctx, f, 500, 8000)):
             e = rng.choice(ev)
             st = "wsa"[i % 3]
             a = rnd_value(f, rng)
@@ -427,7 +435,7 @@ def gen_api(ctx, cases, tags):
             if rng.random() < 0.5:
                 a, b = b, a
             cases.append("cmpd %s %s %s %s" % (f.name, f.h(e), f.h(a), f.h(b))); tags.append("cmpd")
-        for i in range(1200 if quick else 20000):
+        for i in range(cnt(ctx, f, 1200, 20000)):
             op = "round" if i % 2 else "trunc"
             ity = rng.choice(["i32", "i32", "i64", "u32", "u64"])
             sel = "crn"[i % 3]
@@ -466,16 +474,16 @@ def gen(ctx):
 def run_model(ctx, model, cases, impl_lines, tag="model"):
     """Run the extracted model + oracle on chunks in parallel.  Returns list of (model_obs, oracle)."""
     nchunk = max(1, min(V.NCPU, len(cases) // 500 + 1))
-    size = (len(cases) + nchunk - 1) // nchunk
     jobs = []
     for c in range(nchunk):
-        lo, hi = c * size, min(len(cases), (c + 1) * size)
-        if lo >= hi:
+        # round-robin assignment: slow ops (long double with extreme exponents) are spread over all workers
+        part, ipart = cases[c::nchunk], impl_lines[c::nchunk]
+        if not part:
             break
         cf, jf = ctx.path("%s.cases.%d" % (tag, c)), ctx.path("%s.impl.%d" % (tag, c))
-        open(cf, "w").write("\n".join(cases[lo:hi]) + "\n")
-        open(jf, "w").write("\n".join(impl_lines[lo:hi]) + "\n")
-        jobs.append((cf, jf, hi - lo))
+        open(cf, "w").write("\n".join(part) + "\n")
+        open(jf, "w").write("\n".join(ipart) + "\n")
+        jobs.append((cf, jf, len(part)))
 
     def one(j):
         cf, jf, n = j
@@ -488,10 +496,11 @@ def run_model(ctx, model, cases, impl_lines, tag="model"):
             lines.pop()
         lines = lines[:n] + ["MODEL-ERROR no output | - | ="] * (n - len(lines))
         return lines
-    out = []
     with ThreadPoolExecutor(max_workers=V.NCPU) as ex:
-        for lines in ex.map(one, jobs):
-            out.extend(lines)
+        parts = list(ex.map(one, jobs))
+    out = [None] * len(cases)
+    for c, lines in enumerate(parts):
+        out[c::len(parts)] = lines
     res = []
     for l in out:
         parts = l.split(" | ")
